@@ -40,6 +40,10 @@ THEOREMS = [
     "C02_ops_setOperator",
     "C02_setOperator_write",
     "C02_history_edits",
+    "C02_history_every_write",
+    "C02_editAt_meaning",
+    "C02_levels_once",
+    "C02_levels_fuel",
     "C02_ops_surface",
     "C02_ops_cell",
     "C02_ops_and",
@@ -78,6 +82,15 @@ def model_request(case, impl):
     ops = []
     for i, op in enumerate(case["ops"]):
         m = {"k": op["k"]}
+        if op["k"] in ("setdiv", "setside"):
+            break  # leaf edits are not modelled: the model follows the history up to here, the oracle judges all of it
+        if op["k"] != "write":
+            if i >= len(impl["steps"]):
+                break  # the implementation stopped before this step
+            if impl["steps"][i].get("noop"):
+                ops.append({"k": "noop"})
+                continue
+            m["path"] = impl["steps"][i].get("path", "")
         if "xt" in op:
             if i < len(impl["steps"]) and "xtree" in impl["steps"][i]:
                 m["xp"] = impl["steps"][i]["xtree"]
@@ -167,6 +180,8 @@ def compare(case, impl, den, model):
         return "U-geometry-parse (parseInputNode vs HalfSpace.parse_input_node)" if case["origin"] == "parsed" else "U-geometry-ops", {
             "impl": impl["init_str"], "model": model["init"]}
     for i, op in enumerate(case["ops"]):
+        if op["k"] in ("setdiv", "setside"):
+            break  # not modelled from here on (leaf edit)
         if i >= len(impl["steps"]):
             return "U-geometry (implementation raised)", {"impl": impl.get("raised"), "step": i}
         if i >= len(model["steps"]):
@@ -337,7 +352,7 @@ def nontrivial(case):
     if nt(case["init"]):
         return True
     kinds = [op["k"] for op in case["ops"] if op["k"] != "write"]
-    if "setop" in kinds:
+    if "setop" in kinds or "setdiv" in kinds or "setside" in kinds:
         return True
     return len(kinds) >= 1 and (len(set(k.replace("r", "").replace("i", "") for k in kinds)) > 1 or any(nt(op["x"]) for op in case["ops"] if "x" in op))
 
@@ -454,7 +469,7 @@ def run(chk):
         "a case is a geometry AST (surfaces 1-9 with sense '', '+', '-', cell complements #91-#93, intersection, union, "
         "complement, redundant parentheses to depth 3) either rendered to MCNP text with random padding, $ and c comments, "
         "line breaks and & (origin parsed) or built with the Python operators (origin scratch), followed by up to 8 of "
-        "&, |, ~, &=, |= (both operand orders) with fresh operands, the operator setter on a binary root (4 % of the steps) and interleaved writes, always ending in a write. "
+        "&, |, ~, &=, |= (both operand orders), replacement (left/right/geometry setter) with fresh operands, the operator setter (4 % of the steps); 45 % of the edits address an inner HalfSpace (path from the root, chosen in the live tree at that moment); writes are interleaved at arbitrary positions and every written text is judged; always ending in a write. "
         "Non-trivial: a union below an intersection or a complement of a non-cell somewhere, or edits of two different kinds. "
         "Distinct = distinct canonical JSON."
     )
@@ -501,10 +516,15 @@ def _run(chk, drv):
         if h not in seen:
             seen.add(h)
             uniq.append(c)
+    # write; edit the HalfSpace at every address; write
+    rng_w = chk.rng("write-edit-write")
+    for origin, a, ops in geom.gen_write_edit_write(chk.pick(4, 5), chk.pick(3, 4)):
+        uniq.append(geom.make_case(origin, a, ops, rng_w, plain=True))
     chk.exhaustive = {
         "space": f"all geometry trees with <= {top} leaves over (intersection, union) x complement at any node x redundant parentheses at any node x (from scratch, parsed)"
         + ("" if top <= 3 else "; with 4 leaves at most 2 complements and at most 2 redundant parentheses"),
         "cases": len(uniq),
+        "histories": "for every tree with <= 4 leaves over (intersection, union) x (from scratch, parsed): write; hs.operator = inter/union at every binary address; write - and with <= 3 leaves also without the first write, and write; |=, &=, ~, replace at every address; write",
     }
     run_cases(chk, drv, uniq, "exhaustive")
 
